@@ -600,10 +600,12 @@ class JsonDeserializer {
   }
 
   static inline uint8_t decodeHex(char c) {
-    if (c < 'A')
+    if (isBetween(c, '0', '9'))
       return uint8_t(c - '0');
     c = char(c & ~0x20);  // uppercase
-    return uint8_t(c - 'A' + 10);
+    if (isBetween(c, 'A', 'F'))
+      return uint8_t(c - 'A' + 10);
+    return 0xFF;  // not an hexadecimal digit
   }
 
   DeserializationError::Code skipSpacesAndComments() {
